@@ -92,7 +92,8 @@ def write_vectors(args):
             before = h.message_type
             air.log.clear()
             buf = bytearray(msg) if n % 2 else msg
-            ok = node.write(RF24NetworkFrame(h, buf))
+            with sim.guard(s, 3_000_000_000):
+                ok = node.write(RF24NetworkFrame(h, buf))
             out.append(dict(kind="write", **{"from": 0o1}, to=0o11, id=h.frame_id, type=ty, res0=res0, msg=list(msg),
                             air=[p["data"] for p in air.log], ret=bool(ok), type_before=before, type_after=h.message_type,
                             buf_intact=bytes(buf) == msg, exc="none", routed=False))
@@ -117,7 +118,8 @@ def write_vectors(args):
             air.log.clear()
             exc, ok = "none", False
             try:
-                ok = node.write(RF24NetworkFrame(h, msg))
+                with sim.guard(s, 3_000_000_000):
+                    ok = node.write(RF24NetworkFrame(h, msg))
             except Exception as e:  # noqa
                 exc = type(e).__name__
             after = h.message_type if not isinstance(h.message_type, str) else ord(h.message_type[0])
@@ -139,7 +141,8 @@ def write_vectors(args):
             air.fate_fn = (lambda pkt, want=want, last=(kk == nfr): "P" if (len(pkt["data"]) >= 8 and (
                 (pkt["data"][6] == 150) if last else (pkt["data"][6] in (148, 149) and pkt["data"][7] == want))) else "D")
             air.log.clear()
-            ok = node.write(RF24NetworkFrame(h, msg))
+            with sim.guard(s, 5_000_000_000):
+                ok = node.write(RF24NetworkFrame(h, msg))
             air.fate_fn = None
             out.append(dict(kind="abort", **{"from": 0o1}, to=0o11, id=h.frame_id, type=ty, res0=res0, msg=list(msg),
                             air=[p["data"] for p in air.log if p["fate"] != "P"], ret=bool(ok), type_before=before,
